@@ -37,13 +37,24 @@ pub struct M01<C: Suite> {
     /// indices of keys / messages on which transports are explored
     tk: Vec<usize>,
     tm: Vec<usize>,
+    /// messages from this index on belong to the dense band
+    dense_from: usize,
     _c: PhantomData<C>,
 }
 
 impl<C: Suite> M01<C> {
     pub fn new(tier: Tier, seed: u64) -> Self {
         let keys = key_alphabet(seed, tier.thorough());
-        let msgs = msg_alphabet(seed, tier.thorough());
+        let mut msgs = msg_alphabet(seed, tier.thorough());
+        // the dense band of lengths (signed under the first and the fourth key only)
+        let dense_from = msgs.msgs.len();
+        for l in dense_lens() {
+            let name = format!("msg(len={},content=shake,dense)", l);
+            if !msgs.names.iter().any(|n| n.starts_with(&format!("msg(len={},content=shake", l))) {
+                msgs.names.push(name);
+                msgs.msgs.push(msg_of(seed, l, 3));
+            }
+        }
         let nk = keys.be.len();
         // transports on: first edge key, last edge key (r-1), one derived key; empty, 33-byte, 257-byte message
         let tk = vec![0, nk - 1, if tier.thorough() { 7 } else { 2 }];
@@ -52,6 +63,7 @@ impl<C: Suite> M01<C> {
         M01 {
             keys,
             msgs,
+            dense_from,
             tk,
             tm,
             _c: PhantomData,
@@ -89,6 +101,9 @@ impl<C: Suite> Model for M01<C> {
         let mut v = vec![];
         for k in 0..self.keys.be.len() {
             for m in 0..self.msgs.msgs.len() + SPECIAL_MESSAGES.len() {
+                if m >= self.dense_from && m < self.msgs.msgs.len() && k != 0 && k != 3 {
+                    continue;
+                }
                 for s in SCHEMES {
                     v.push(St {
                         k,
